@@ -15,7 +15,7 @@ use rustrtc::transports::dtls::{Certificate, fingerprint, generate_certificate};
 use std::collections::VecDeque;
 
 #[derive(Clone, Debug, PartialEq)]
-pub enum Act { Drop, Dup, Swap, FlipBody(u16), CertOther, CertEmpty, CertGarbage, Resign, CertOtherResign, FlipSig, FlipKey, FlipRandom, StripExt(u16), FlipCipher, Fragment(u16), FragDupMid(u16), FragReorder(u16) }
+pub enum Act { Drop, Dup, Swap, FlipBody(u16), CertOther, CertEmpty, CertGarbage, Resign, CertOtherResign, FlipSig, FlipKey, FlipRandom, StripExt(u16), FlipCipher, Fragment(u16), FragDupMid(u16), FragReorder(u16), SeqMinus1, Impostor }
 
 #[derive(Clone, Debug, PartialEq)]
 pub struct Rule { pub from_client: bool, pub typ: u8, pub act: Act }
@@ -30,7 +30,8 @@ impl Script {
             Act::CertOther => "other".into(), Act::CertEmpty => "empty".into(), Act::CertGarbage => "garbage".into(), Act::Resign => "resign".into(),
             Act::CertOtherResign => "otherresign".into(), Act::FlipSig => "flipsig".into(), Act::FlipKey => "flipkey".into(),
             Act::FlipRandom => "fliprandom".into(), Act::StripExt(e) => format!("strip{e}"), Act::FlipCipher => "flipcipher".into(),
-            Act::Fragment(n) => format!("frag{n}"), Act::FragDupMid(n) => format!("fragdup{n}"), Act::FragReorder(n) => format!("fragreorder{n}") })).collect();
+            Act::Fragment(n) => format!("frag{n}"), Act::FragDupMid(n) => format!("fragdup{n}"), Act::FragReorder(n) => format!("fragreorder{n}"),
+            Act::SeqMinus1 => "seqminus1".into(), Act::Impostor => "impostor".into() })).collect();
         format!("ce={} se={} {}", self.ce, self.se, if rs.is_empty() { "-".into() } else { rs.join(";") })
     }
     pub fn parse(s: &str) -> Script {
@@ -44,7 +45,7 @@ impl Script {
             let num = |pre: &str| a[pre.len()..].parse::<u16>().unwrap();
             let act = match a { "drop" => Act::Drop, "dup" => Act::Dup, "swap" => Act::Swap, "other" => Act::CertOther, "empty" => Act::CertEmpty,
                 "garbage" => Act::CertGarbage, "resign" => Act::Resign, "otherresign" => Act::CertOtherResign, "flipsig" => Act::FlipSig,
-                "flipkey" => Act::FlipKey, "fliprandom" => Act::FlipRandom, "flipcipher" => Act::FlipCipher,
+                "flipkey" => Act::FlipKey, "fliprandom" => Act::FlipRandom, "flipcipher" => Act::FlipCipher, "seqminus1" => Act::SeqMinus1, "impostor" => Act::Impostor,
                 x if x.starts_with("flipbody") => Act::FlipBody(num("flipbody")), x if x.starts_with("strip") => Act::StripExt(num("strip")),
                 x if x.starts_with("fragdup") => Act::FragDupMid(num("fragdup")), x if x.starts_with("fragreorder") => Act::FragReorder(num("fragreorder")),
                 x if x.starts_with("frag") => Act::Fragment(num("frag")), x => panic!("bad act {x}") };
@@ -120,6 +121,12 @@ fn apply(act: &Act, dg: &[u8], atk: &Attacker, randoms: &(Vec<u8>, Vec<u8>)) -> 
                 b.truncate(i); b.extend_from_slice(&(out.len() as u16).to_be_bytes()); b.extend_from_slice(&out);
             } })],
         Act::FlipCipher => { let mut d = dg.to_vec(); let n = d.len(); d[n - 20] ^= 1; vec![d] }
+        Act::Impostor => vec![dg.to_vec()],
+        Act::SeqMinus1 => {
+            // renumber the message (an on-path party closing the gap after dropping its predecessor)
+            let r = &parse_records(dg)[0]; let m = &parse_hs(&r.body)[0];
+            vec![record_bytes(22, (r.vmaj, r.vmin), r.epoch, r.seq, &hs_bytes(m.typ, m.total, m.seq.wrapping_sub(1), m.off, &m.body))]
+        }
         Act::FragDupMid(a) | Act::FragReorder(a) => {
             // three fragments [0,a) [a,2a) [2a,..): the middle one twice, or the last two swapped
             let r = &parse_records(dg)[0]; let m = &parse_hs(&r.body)[0];
@@ -152,6 +159,10 @@ pub async fn run_script_ticks(sc: &Script, max_ticks: u32) -> Option<Outcome> {
     let exp = |c: char, peer: &Certificate| match c { 'o' => Some(fingerprint(peer)), 'b' => Some(bogus.clone()), _ => None };
     let (exp_c, exp_s) = (exp(sc.ce, &scert), exp(sc.se, &cc));
     let mut c = Recd::new(true, cc, exp_c.clone()).await;
+    // an impostor server: presents the genuine server's certificate but holds (and signs with) another key
+    let scert = if sc.rules.iter().any(|r| r.act == Act::Impostor) {
+        let mut c = Certificate::default(); c.certificate = scert.certificate.clone(); c.private_key = atk.cert.private_key.clone(); c
+    } else { scert };
     let mut s = Recd::new(false, scert, exp_s.clone()).await;
     let (c_src, s_src) = (c.ep.sink_addr, s.ep.sink_addr);
     let mut q_cs: VecDeque<Vec<u8>> = VecDeque::new();
@@ -264,6 +275,9 @@ pub fn scripts(thorough: bool, rng: &mut Rng) -> Vec<Script> {
         vec![r(true, 20, Act::FlipCipher)], vec![r(false, 20, Act::FlipCipher)], vec![r(true, 20, Act::Drop)], vec![r(false, 20, Act::Drop)],
         vec![r(true, 20, Act::Dup)], vec![r(false, 20, Act::Dup)],
         vec![r(false, 11, Act::Fragment(100))], vec![r(false, 12, Act::Fragment(30))],
+        vec![r(false, 0, Act::Impostor)],
+        vec![r(false, 12, Act::Drop), r(false, 14, Act::SeqMinus1)],
+        vec![r(false, 11, Act::Drop), r(false, 12, Act::SeqMinus1)],
     ];
     for t in &tamper {
         let combos: Vec<(char, char)> = if thorough { vec![('n', 'n'), ('o', 'n'), ('b', 'n'), ('o', 'o'), ('o', 'b'), ('n', 'b')] }
